@@ -388,6 +388,17 @@ def typing_rules(ck, c):
         ck.ob("WHO", f.path, "stacks-read-only-through-primitives", not direct,
               "no arm of validate() reads state.opds directly (labels are looked up through the control stack's own methods)" if not direct else
               "an instruction rule reads the operand/control stack directly (%d places): the frame's base height is bypassed" % len(direct), f.loc(direct[0]) if direct else f.loc())
+    # the number of locals is accumulated with checked arithmetic: a declared multiplicity comes straight from the module bytes,
+    # and an unchecked `start + multiplicity` wraps (or panics) before the ALLOWED_LOCALS test - after a wrap every local index
+    # type-checks against a range table that no longer describes the frame
+    mf = getfn(ck, "sc", W, W + "::validate::make_locals")
+    if mf:
+        rawm = [bi for bi in sorted(mf.reachable()) for st in mf.stmts(bi) for rv in [st.get("rv", {})]
+                if rv.get("k") == "bin" and re.match(r"^(Add|Mul)", rv["op"]) and any(("field", "multiplicity") in mf.origins(x) for x in (rv["a"], rv["b"]) if op_const(x) is None)]
+        chk = [bi for (bi, t) in mf.calls(r"::checked_add$") if any(("field", "multiplicity") in mf.origins(a, deep=True) for a in t["args"])]
+        ck.ob("ERR", mf.path, "locals-counted-with-checked-arithmetic", not rawm and len(chk) >= 1,
+              "the declared multiplicities are added with checked_add" if not rawm and chk else
+              "a declared multiplicity is added without an overflow check: 2^32 or more declared locals wrap the count (or panic) before the limit is tested", mf.loc(rawm[0]) if rawm else mf.loc())
     # a function body is ONE expression: it ends at the `end` that closes the function's frame, and the code entry must be
     # exhausted there. The instruction loop of validate() therefore refuses to process an instruction once the control stack is
     # empty (a test of done() / of the control stack inside the loop, on the path to the dispatch). A test only after the loop
